@@ -117,7 +117,7 @@ def lattice(name):
     return -1.0 * A, tuple(sorted(bonds))
 
 
-LATS = {2: ["chain2"], 3: ["chain3"], 4: ["chain4", "grid2x2"]}
+LATS = {2: ["chain2"], 3: ["chain3"], 4: ["chain4", "grid2x2"], 5: ["chain5"]}
 
 
 @lru_cache(maxsize=None)
@@ -159,21 +159,28 @@ _H4 = np.kron(_H2, _H2)
 
 
 def _uniform_orbitals(n, k, salt, seed):
-    """k orthonormal real orbitals on n sites whose density diag(C C^T) is the same on every site."""
+    """k orthonormal real orbitals on n sites whose density diag(C C^T) is the same on every site, or None when this
+    small alphabet has none (equal-modulus vectors, their complements, Hadamard columns for n = 2, 4, full bands)."""
     if k == n:
         return al.frame(n, seed, 11 + salt)
     if n in (2, 4):
         H = _H2 if n == 2 else _H4
         cols = [(salt + c) % n for c in range(k)]
         return H[:, cols] @ al.frame(k, seed, 13 + salt)
-    if n == 3:
-        sgn = [np.array([1.0, 1.0, 1.0]), np.array([1.0, -1.0, 1.0]), np.array([1.0, 1.0, -1.0])][salt % 3]
-        v = sgn / np.sqrt(3.0)
-        if k == 1:
-            return v[:, None]
-        Q, _ = np.linalg.qr(np.column_stack([v, al.frame(3, seed, 17 + salt)[:, :2]]))
-        return Q[:, 1:3] @ al.frame(2, seed, 19 + salt)
-    raise ValueError("no uniform-density orbital alphabet for n=%d" % n)
+    sgn = np.ones(n)
+    if salt % 3:
+        sgn[(salt % 3)::2] = -1.0
+    v = sgn / np.sqrt(n)
+    if k == 1:
+        return v[:, None]
+    if k == n - 1:
+        Q, _ = np.linalg.qr(np.column_stack([v, al.frame(n, seed, 17 + salt)[:, : n - 1]]))
+        return Q[:, 1:n] @ al.frame(n - 1, seed, 19 + salt)
+    return None
+
+
+def has_uniform(n, na, nb):
+    return _uniform_orbitals(n, na, 0, 0) is not None and _uniform_orbitals(n, nb, 1, 0) is not None
 
 
 _THETAS = [np.pi / 4, 0.3, np.pi / 3, 1.1, 0.6]
@@ -185,6 +192,8 @@ def make_trial(kind, n, na, nb, density, seed, nonorth=False):
     is a generic real 2n x N frame.  wave_data['rdm1'] is the trial's own density (as _prep_afqmc stores it)."""
     _, jnp, wf, _, _ = _lib()
     if density == "uniform":
+        if not has_uniform(n, na, nb):
+            raise ValueError("no uniform-density determinant for %r" % ((n, na, nb),))
         Ca = _uniform_orbitals(n, na, 0, seed)[:, :na]
         Cb = _uniform_orbitals(n, nb, 1, seed)[:, :nb]
     else:
@@ -193,8 +202,8 @@ def make_trial(kind, n, na, nb, density, seed, nonorth=False):
     if kind == "uhf_cpmc":
         if nonorth:
             rng = np.random.default_rng(7700 + seed)
-            Ca = Ca @ (np.eye(na) + 0.3 * rng.normal(size=(na, na)))
-            Cb = Cb @ (np.eye(nb) + 0.3 * rng.normal(size=(nb, nb)))
+            Ca = Ca @ (np.diag(1.0 + 0.2 * np.arange(na)) + 0.3 / na * rng.uniform(-1, 1, size=(na, na)))
+            Cb = Cb @ (np.diag(1.0 + 0.2 * np.arange(nb)) + 0.3 / nb * rng.uniform(-1, 1, size=(nb, nb)))
         trial = wf.uhf_cpmc(n, (na, nb))
         wd = {"mo_coeff": [jnp.asarray(Ca), jnp.asarray(Cb)]}
         rdm = np.array([Ca @ Ca.T, Cb @ Cb.T])
@@ -223,7 +232,7 @@ def make_trial(kind, n, na, nb, density, seed, nonorth=False):
                     t += 1
         if nonorth:
             rng = np.random.default_rng(7800 + seed)
-            C = C @ (np.eye(N) + 0.3 * rng.normal(size=(N, N)))
+            C = C @ (np.diag(1.0 + 0.2 * np.arange(N)) + 0.3 / N * rng.uniform(-1, 1, size=(N, N)))
         trial = wf.ghf_cpmc(n, (na, nb))
         wd = {"mo_coeff": jnp.asarray(C)}
         dm = C @ C.T
@@ -250,6 +259,11 @@ class RefTrial:
         M = np.concatenate([C[: self.n].T @ Wa, C[self.n:].T @ Wb], axis=-1)
         return np.linalg.det(M)
 
+    def overlap_matrices(self, Wa, Wb):
+        if self.kind == "uhf_cpmc":
+            return [self.mo[0].T @ Wa, self.mo[1].T @ Wb]
+        return [np.concatenate([self.mo[: self.n].T @ Wa, self.mo[self.n:].T @ Wb], axis=-1)]
+
     def green(self, Wa, Wb):
         """Library layout: uhf (W,2,n,n) with G[s] = (W_s (C_s^T W_s)^-1 C_s^T)^T ; ghf (W,2n,2n)."""
         if self.kind == "uhf_cpmc":
@@ -273,7 +287,7 @@ def make_walker(ref, which, seed):
         Ba, Bb = ref.mo
     else:
         Ba, Bb = ref.mo[:n, :na], ref.mo[n:, na:]
-    for attempt in range(12):
+    for attempt in range(40):
         rng = np.random.default_rng(5100 + 97 * seed + 13 * attempt + (0 if which == "near" else 1000) + 7 * n + 3 * na + nb)
         La = rng.uniform(-1, 1, size=(n, na))
         Lb = rng.uniform(-1, 1, size=(n, nb))
@@ -285,9 +299,9 @@ def make_walker(ref, which, seed):
         if O < 0:
             Wa = Wa.copy()
             Wa[:, 0] *= -1.0
-            O = -O
-        scale = np.linalg.norm(Wa, 2) ** na * np.linalg.norm(Wb, 2) ** nb
-        if O > 0.02 * scale:  # conditioning pre-check on the input
+        # conditioning pre-check on the input: every overlap matrix block well away from singular
+        if min(np.linalg.svd(M, compute_uv=False)[-1] / np.linalg.svd(M, compute_uv=False)[0]
+               for M in ref.overlap_matrices(Wa, Wb)) > 0.04:
             return Wa, Wb
     raise RuntimeError("no conditioned walker for %r %s" % ((ref.kind, n, na, nb), which))
 
@@ -441,11 +455,14 @@ def _sym_log(E):
     return (V * np.log(lam)) @ V.T
 
 
+def _sym_expm(A):
+    lam, V = np.linalg.eigh(0.5 * (A + A.T))
+    return (V * np.exp(lam)) @ V.T
+
+
 def fock_rhs(n, na, nb, E, U, dt, shift, phi, O0, u1=0.0, bonds=()):
     """exp(dt s) G(E) prod_i exp(-dt U n_iu n_id) [prod_bonds prod_ss' exp(-dt u1 n_is n_js')] G(E) |phi> / O0
     with G(E) the Fock-space representation of the orbital transformation E (per spin)."""
-    from scipy.linalg import expm
-
     sec = fock.sector(n, na, nb)
     Z = np.zeros((n, n))
     nocc = {}
@@ -461,7 +478,7 @@ def fock_rhs(n, na, nb, E, U, dt, shift, phi, O0, u1=0.0, bonds=()):
         for s in (0, 1):
             for t in (0, 1):
                 D = D * np.exp(-dt * u1 * nocc[s, i] * nocc[t, j])
-    G = expm(sec.op1(_sym_log(E[0]), _sym_log(E[1])))
+    G = _sym_expm(sec.op1(_sym_log(E[0]), _sym_log(E[1])))
     v0 = sec.walker_vectors(phi[0][None], phi[1][None])[:, 0]
     v1 = G @ v0
     chk = sec.walker_vectors((E[0] @ phi[0])[None], (E[1] @ phi[1])[None])[:, 0]
@@ -483,6 +500,12 @@ def hs_law_error(H, V, dt):
 
 
 # =============================================================================== one population through the real code
+def _finite_max(x):
+    x = np.abs(np.asarray(x, dtype=float))
+    x = x[np.isfinite(x)]
+    return max(float(x.max()) if x.size else 0.0, 1e-30)
+
+
 def _relmax(a, b, floor):
     a, b = np.asarray(a), np.asarray(b)
     d = np.abs(a - b) / np.maximum(np.abs(b), floor)
@@ -521,8 +544,6 @@ def run_population(case):
     """Execute ONE case = one population (all leaves + probes of one configuration) through the real
     propagator and compare with the reference.  Returns dict(viol=[(signature, detail)], info=...)."""
     jax, jnp, wf, propagation, hamiltonian = _lib()
-    from scipy.linalg import expm
-
     n, na, nb = case["n"], case["na"], case["nb"]
     kind, pname, mode = case["trial"], case["prop"], case["mode"]
     U, dt, u1 = float(case["U"]), float(case["dt"]), float(case.get("u1", 0.0))
@@ -549,7 +570,7 @@ def run_population(case):
     if is_nn:
         hd["u_1"] = u1
     E_lib = np.asarray(hd["exp_h1"], dtype=float)
-    E_bare = np.array([expm(-dt * K / 2.0)] * 2)
+    E_bare = np.array([_sym_expm(-dt * K / 2.0)] * 2)
     if mode == "bare":
         hd["exp_h1"] = jnp.asarray(E_bare)
     E = E_bare if mode == "bare" else E_lib
@@ -611,25 +632,28 @@ def run_population(case):
     wscale = np.maximum(np.abs(R["Wa"]).max(axis=(1, 2)), np.abs(R["Wb"]).max(axis=(1, 2)))
     e_walk = np.maximum(np.abs(Ia - R["Wa"]).max(axis=(1, 2)), np.abs(Ib - R["Wb"]).max(axis=(1, 2))) / wscale
     e_walk = np.where(np.isfinite(e_walk), e_walk, np.inf)
-    e_ovlp = _relmax(IO, R["O"], 1e-6 * np.abs(R["O"]).max())
-    e_wt = _relmax(Iw, R["w"], 1e-3 * max(np.abs(R["w"]).max(), 1e-30))
-    base = "%s.propagate/%s" % (pname, kind)
+    e_ovlp = _relmax(IO, R["O"], 1e-6 * _finite_max(R["O"][cmp_ok]))
+    e_wt = _relmax(Iw, R["w"], 1e-3 * _finite_max(R["w"][cmp_ok]))
+    base = "%s.propagate" % pname
+    ref_mismatch = False
     for nm, err in (("walkers", e_walk), ("overlaps", e_ovlp), ("weights", e_wt)):
         bad = np.nonzero(cmp_ok & ~(err <= TOL))[0]
-        if bad.size:
+        if bad.size and not ref_mismatch:   # later classes follow from the first one; report the first only
+            ref_mismatch = True
             k = int(bad[0])
             is_probe = depth[k] >= 0
-            what = "selection-probability" if (is_probe and nm == "walkers" and not (cmp_ok[:L] & ~(err[:L] <= TOL)).any()) else nm
-            viol.append(("%s:%s-differ-from-reference" % (base, what),
-                         dict(walker=k, kind_of_walker="probe" if is_probe else "leaf", probe_depth=int(depth[k]),
+            only_probes = not (cmp_ok[:L] & ~(err[:L] <= TOL)).any()
+            viol.append(("%s:%s-differ-from-reference" % (base, nm),
+                         dict(only_probes_fail__selection_probability_off=bool(only_probes and nm == "walkers"), walker=k, kind_of_walker="probe" if is_probe else "leaf", probe_depth=int(depth[k]),
                               probe_side=int(sign[k]), forced_bits=bits[k].tolist(), chosen_ref=R["chosen"][k].tolist(),
                               uniforms=R["u"][k].tolist(), relerr=float(err[k]), n_bad=int(bad.size), n_compared=int(cmp_ok.sum()),
-                              impl=dict(weight=float(Iw[k]), overlap=float(IO[k])), ref=dict(weight=float(R["w"][k]), overlap=float(R["O"][k])))))
+                              trial=kind, impl=dict(weight=float(Iw[k]), overlap=float(IO[k])),
+                              ref=dict(weight=float(R["w"][k]), overlap=float(R["O"][k])))))
     # stored overlap = overlap recomputed from the returned walkers
     Orec = ref.overlap(Ia, Ib)
-    e_coh = _relmax(IO, Orec, 1e-6 * np.abs(Orec).max())
+    e_coh = _relmax(IO, Orec, 1e-6 * _finite_max(Orec[cmp_ok]))
     bad = np.nonzero(cmp_ok & np.isfinite(Orec) & ~(e_coh <= TOL))[0]
-    if bad.size:
+    if bad.size and not ref_mismatch:
         viol.append(("%s:stored-overlap-not-overlap-of-returned-walker" % base, dict(walker=int(bad[0]), relerr=float(e_coh[bad[0]]))))
 
     # --- the exact expectation over all field configurations
@@ -637,7 +661,7 @@ def run_population(case):
     free = not (R["active"][:L].any() or R["dead"][:L].any() or R["ambiguous"][:L].any() or R["clipped"][:L].any())
     info = dict(W=W, L=L, n_probe=int(W - L), n_probe_ok=int((R["probe_ok"] & (depth >= 0)).sum()),
                 n_dead=int(R["dead"].sum()), n_active=int(R["active"].sum()), n_ambiguous=int(R["ambiguous"].sum()),
-                identity_evaluated=bool(free), E_minus_bare=float(np.abs(E_lib - E_bare).max()),
+                identity_evaluated=bool(free), ref_mismatch=False, E_minus_bare=float(np.abs(E_lib - E_bare).max()),
                 density_spread=float(ref.density.max() - ref.density.min()),
                 leaf_p=R["p"][:L], leaf_chosen_is_forced=bool((R["chosen"][:L] == bits[:L]).all()),
                 cmp=dict(ok=cmp_ok, walkers=np.concatenate([Ia.reshape(W, -1), Ib.reshape(W, -1)], axis=1), overlaps=IO, weights=Iw))
@@ -654,8 +678,10 @@ def run_population(case):
         res_K = float(np.abs(lhs - rhs_K).max() / sc) if np.all(np.isfinite(lhs)) else float("inf")
         info.update(res_E=res_E, res_K=res_K)
         if not res_E <= TOL:
-            viol.append(("%s:sum-over-field-configurations-is-not-the-Hubbard-Stratonovich-step" % base,
-                         dict(residual=res_E, mode=mode, note="right-hand side built with the very half step the propagator used")))
+            if not ref_mismatch:   # otherwise it follows from the per-walker mismatch already reported
+                viol.append(("%s:sum-over-field-configurations-is-not-the-Hubbard-Stratonovich-step" % base,
+                             dict(residual=res_E, mode=mode, trial=kind,
+                                  note="right-hand side built with the very half step the propagator used")))
         elif not res_K <= TOL:
             # sampling is exact given the half step, so the half step itself is what differs from exp(-dt K/2)
             c = float(np.vdot(rhs_K, lhs) / np.vdot(rhs_K, rhs_K))
@@ -666,6 +692,7 @@ def run_population(case):
                               max_abs_exp_h1_minus_exp_mdtK2=info["E_minus_bare"],
                               effective_h1_minus_K=hmod - K, pure_weight_factor=bool(res_scaled <= 1e-9),
                               weight_factor=c, trial_density=ref.density, prop=pname)))
+    info["ref_mismatch"] = ref_mismatch
     return dict(viol=viol, info=info)
 
 
@@ -680,6 +707,7 @@ def _shift_letter(*idx):
 def tree_cases(cfg):
     n, na, nb = cfg["n"], cfg["na"], cfg["nb"]
     full = (na == n and nb == n)
+    uni = has_uniform(n, na, nb)
     out = []
     for il, lat in enumerate(LATS[n]):
         for iu, U in enumerate(cfg["Us"]):
@@ -687,6 +715,8 @@ def tree_cases(cfg):
                 for idn, density in enumerate(["uniform", "nonuniform"]):
                     if full and density == "nonuniform":
                         continue  # a full band has density 2 on every site whatever the orbitals
+                    if density == "uniform" and not uni:
+                        continue  # no uniform-density determinant in the orbital alphabet for this filling
                     for iw, walker in enumerate(["near", "far"]):
                         for pname in ("propagator_cpmc", "propagator_cpmc_slow"):
                             for mode in ("library", "bare"):
@@ -703,6 +733,8 @@ def nn_cases(cfg):
             for i1, u1 in enumerate((0.0, 1.0)):
                 for idt, dt in enumerate(cfg["dts"]):
                     for idn, density in enumerate(["nonuniform", "uniform"]):
+                        if cfg["na"] == n and cfg["nb"] == n and density == "nonuniform":
+                            continue
                         for iw, walker in enumerate(cfg["walkers"]):
                             for pname in ("propagator_cpmc_nn", "propagator_cpmc_nn_slow"):
                                 out.append(dict(cfg, fam="nn", lat=lat, U=U, u1=u1, dt=dt, density=density, walker=walker,
@@ -718,7 +750,7 @@ def job_paths(cfg):
     """Worker for the 'tree' and 'nn' families: all cases of one static configuration."""
     res = Result()
     cases = tree_cases(cfg) if cfg["fam"] == "tree" else nn_cases(cfg)
-    f4_present = None
+    root_cache = {}
     store = {}
     for case in cases:
         out = run_population(case)
@@ -738,15 +770,14 @@ def job_paths(cfg):
         else:
             res.guard("identity_not_evaluated(constraint active or weight clipped on some path)", 1)
         for sig, det in out["viol"]:
-            if case["fam"] == "nn" and case["trial"] == "uhf_cpmc" and case["prop"] == "propagator_cpmc_nn" \
-                    and sig.startswith("propagator_cpmc_nn.propagate/uhf_cpmc:"):
-                # the neighbour propagator is the only caller of the same-spin fast update; if that update is
-                # itself wrong on this very configuration (checked from scratch), this mismatch is its echo
-                if f4_present is None:
-                    f4_present = _same_spin_update_broken(case)
-                if f4_present:
+            if case["prop"] in FAST_PROPS and sig.startswith("%s.propagate:" % case["prop"]):
+                # the fast propagators are the only callers of the incremental updates; when the update used by this
+                # propagator is itself wrong on this very configuration (checked from scratch on the spin-orbital
+                # pairs the propagator touches), the mismatch is its echo and carries the root cause's signature
+                root = _root_cause(case, root_cache)
+                if root is not None:
                     det = dict(det, observed_through=sig)
-                    sig = "uhf_cpmc.update_greens_function:same-spin"
+                    sig = root
             res.violation(sig, case, det)
         store[_case_key(case)] = out
         if len(res.samples) < 2 and info["identity_evaluated"]:
@@ -762,36 +793,57 @@ def job_paths(cfg):
         if b is None:
             continue
         res.add(transitions=a["info"]["W"], evaluations=3 * a["info"]["W"])
-        fa, fb = a["info"]["cmp"], b["info"]["cmp"]
-        ok = fa["ok"] & fb["ok"]
-        for nm in ("walkers", "overlaps", "weights"):
-            x, y = fa[nm], fb[nm]
-            if nm == "walkers":
-                err = np.abs(x - y).reshape(x.shape[0], -1).max(axis=1) / np.maximum(np.abs(y).reshape(y.shape[0], -1).max(axis=1), 1e-300)
-            else:
-                err = _relmax(x, y, 1e-3 * max(np.abs(y[np.isfinite(y)]).max() if np.isfinite(y).any() else 1.0, 1e-30) if nm == "weights" else 1e-6 * np.abs(y).max())
-            err = np.where(np.isfinite(err), err, np.inf)
+        errs, ok = fast_slow_errors(a["info"]["cmp"], b["info"]["cmp"])
+        res.guard("fast_vs_slow_walkers_compared", int(ok.sum()))
+        echo = a["info"]["ref_mismatch"] or b["info"]["ref_mismatch"]   # already reported against the reference
+        for nm, err in errs.items():
             bad = np.nonzero(ok & ~(err <= TOL))[0]
-            res.guard("fast_vs_slow_walkers_compared", int(ok.sum()) if nm == "walkers" else 0)
+            if bad.size and echo:
+                res.guard("fast_vs_slow_differences_already_reported_against_reference", 1)
+                break
             if bad.size:
-                sig = "%s-vs-%s/%s:%s-differ" % (case["prop"], slow["prop"], case["trial"], nm)
+                sig = "%s-vs-%s:%s-differ" % (case["prop"], slow["prop"], nm)
                 det = dict(walker=int(bad[0]), relerr=float(err[bad[0]]), n_bad=int(bad.size))
-                if case["fam"] == "nn" and case["trial"] == "uhf_cpmc":
-                    if f4_present is None:
-                        f4_present = _same_spin_update_broken(case)
-                    if f4_present:
-                        det = dict(det, observed_through=sig)
-                        sig = "uhf_cpmc.update_greens_function:same-spin"
+                root = _root_cause(case, root_cache)
+                if root is not None:
+                    det = dict(det, observed_through=sig)
+                    sig = root
                 res.violation(sig, dict(case, compare="fast-vs-slow"), det)
     return res
 
 
-def _same_spin_update_broken(case):
-    """From-scratch check of uhf_cpmc.update_greens_function on the same-spin pairs of this configuration."""
-    r = Result()
-    _fast_checks(dict(kind="uhf_cpmc", n=case["n"], na=case["na"], nb=case["nb"], seed=case["seed"], density=case["density"],
-                      nonorth=False), r, only_same_spin=True)
-    return any(v["signature"] == "uhf_cpmc.update_greens_function:same-spin" for v in r.violations)
+def fast_slow_errors(fa, fb):
+    """walker-by-walker relative differences between two runs fed identical uniforms"""
+    ok = fa["ok"] & fb["ok"]
+    errs = {}
+    for nm in ("walkers", "overlaps", "weights"):
+        x, y = fa[nm], fb[nm]
+        if nm == "walkers":
+            err = np.abs(x - y).max(axis=1) / np.maximum(np.abs(y).max(axis=1), 1e-300)
+        else:
+            err = _relmax(x, y, (1e-3 if nm == "weights" else 1e-6) * _finite_max(y[ok]))
+        errs[nm] = np.where(np.isfinite(err), err, np.inf)
+    return errs, ok
+
+
+FAST_PROPS = ("propagator_cpmc", "propagator_cpmc_nn")
+
+
+def _root_cause(case, cache):
+    """Signature of the first from-scratch failure of calc_overlap_ratio / update_greens_function / calc_full_green on
+    the spin-orbital pairs that this case's fast propagator updates (same trial, same walkers' trial), or None."""
+    key = (case["trial"], case["density"], case["prop"], case["lat"])
+    if key not in cache:
+        n = case["n"]
+        pairs = {((0, i), (1, i)) for i in range(n)}
+        if "nn" in case["prop"]:
+            for (i, j) in lattice(case["lat"])[1]:
+                pairs |= {((0, i), (0, j)), ((0, i), (1, j)), ((1, i), (0, j)), ((1, i), (1, j))}
+        r = Result()
+        _fast_checks(dict(kind=case["trial"], n=n, na=case["na"], nb=case["nb"], seed=case["seed"], density=case["density"],
+                          nonorth=False), r, pair_filter=pairs)
+        cache[key] = r.violations[0]["signature"] if r.violations else None
+    return cache[key]
 
 
 # ------------------------------------------------------------------------------- fast update family
@@ -804,7 +856,7 @@ def const_alphabet(seed):
     return [_CONST[(i + r) % 4] * s for i in range(4)]
 
 
-def _fast_checks(cfg, res, only_same_spin=False, only_case=None):
+def _fast_checks(cfg, res, pair_filter=None, only_case=None):
     jax, jnp, wf, _, _ = _lib()
     kind, n, na, nb, seed = cfg["kind"], cfg["n"], cfg["na"], cfg["nb"], cfg["seed"]
     trial, wd, ref = make_trial(kind, n, na, nb, cfg["density"], seed, nonorth=cfg.get("nonorth", False))
@@ -821,8 +873,8 @@ def _fast_checks(cfg, res, only_same_spin=False, only_case=None):
         res.violation("%s.calc_full_green" % kind, dict(cfg, fam="fast", what="full_green"), dict(relerr=float(e)))
     sos = [(s, i) for s in (0, 1) for i in range(n)]
     pairs = [(a, b) for a in sos for b in sos if not (a[0] == b[0] and a[1] == b[1])]
-    if only_same_spin:
-        pairs = [p for p in pairs if p[0][0] == p[1][0]]
+    if pair_filter is not None:
+        pairs = [p for p in pairs if p in pair_filter]
     cs = const_alphabet(seed)
     consts = [(c0, c1) for c0 in cs for c1 in cs]
     ratio_1 = jax.jit(jax.vmap(trial.calc_overlap_ratio, in_axes=(None, None, 0)))          # over constants
@@ -866,9 +918,9 @@ def _fast_checks(cfg, res, only_same_spin=False, only_case=None):
                 bad = np.nonzero(~(ev <= TOL))[0]
                 if bad.size:
                     k = int(bad[0])
-                    res.violation("%s.calc_overlap_ratio_vmap:%s" % (kind, cls),
+                    res.violation("%s.calc_overlap_ratio:%s" % (kind, cls),
                                   dict(cfg, fam="fast", what="ratio", pair=[list(a), list(b)], walker=w, const=list(consts[k])),
-                                  dict(impl=float(r_vm[k]), ref=float(r_ref[k]), relerr=float(ev[k])))
+                                  dict(impl=float(r_vm[k]), ref=float(r_ref[k]), relerr=float(ev[k]), via="calc_overlap_ratio_vmap"))
             eg = np.abs(g_impl - G_new_ref).reshape(nc, -1).max(axis=1) / np.maximum(1.0, np.abs(G_new_ref).reshape(nc, -1).max(axis=1))
             eg = np.where(conditioned, eg, 0.0)
             bad = np.nonzero(~(eg <= TOL))[0]
@@ -977,8 +1029,10 @@ def job_example_route(cfg):
 def fillings(n, tier):
     allf = [(na, nb) for na in range(1, n + 1) for nb in range(1, na + 1)]
     if tier == "thorough":
+        if n == 5:
+            return [(1, 1), (2, 1), (2, 2), (3, 2), (4, 1), (4, 4)]
         return allf + ([(1, 2)] if n == 3 else [])
-    return {2: [(1, 1), (2, 1), (2, 2)], 3: [(1, 1), (2, 1), (2, 2), (3, 2)], 4: [(1, 1), (2, 1), (2, 2), (3, 2)]}[n]
+    return {2: [(1, 1), (2, 1), (2, 2)], 3: [(1, 1), (2, 1), (2, 2)], 4: [(1, 1), (2, 1), (2, 2)]}[n]
 
 
 def make_jobs(tier, seed):
@@ -986,25 +1040,30 @@ def make_jobs(tier, seed):
     jobs = []
     # fast update
     for kind in ("uhf_cpmc", "ghf_cpmc"):
-        for n in (2, 3, 4):
+        for n in ((2, 3, 4, 5) if thorough else (2, 3, 4)):
             for (na, nb) in fillings(n, tier):
-                vs = [("nonuniform", False), ("uniform", False), ("nonuniform", True)] if thorough or n < 4 else [("nonuniform", False)]
+                vs = [("nonuniform", False), ("uniform", False), ("nonuniform", True)] if thorough else \
+                    ([("nonuniform", False), ("nonuniform", True)] if n < 4 else [("nonuniform", False)])
                 for density, nonorth in vs:
                     if na == n and nb == n and density == "nonuniform" and not nonorth:
                         density = "uniform"
-                    jobs.append(("fast", dict(fam="fast", kind=kind, n=n, na=na, nb=nb, seed=seed, density=density, nonorth=nonorth)))
+                    if density == "uniform" and not has_uniform(n, na, nb):
+                        continue
+                    j = ("fast", dict(fam="fast", kind=kind, n=n, na=na, nb=nb, seed=seed, density=density, nonorth=nonorth))
+                    if j not in jobs:
+                        jobs.append(j)
     # on-site propagators: all 2^n paths + probes
-    for n in (2, 3, 4):
+    for n in ((2, 3, 4, 5) if thorough else (2, 3, 4)):
         for (na, nb) in fillings(n, tier):
             for kind in ("uhf_cpmc", "ghf_cpmc"):
-                jobs.append(("paths", dict(fam="tree", n=n, na=na, nb=nb, trial=kind, seed=seed, Us=[1.0, 4.0, 8.0], dts=[0.01, 0.1])))
+                jobs.append(("paths", dict(fam="tree", n=n, na=na, nb=nb, trial=kind, seed=seed, Us=[4.0, 1.0, 8.0], dts=[0.1, 0.01])))
     # neighbour-interaction propagators with the virtual RNG
     for n in (2, 3):
-        fl = fillings(n, tier) if (thorough or n == 2) else [(1, 1), (2, 1)]
+        fl = fillings(n, tier) if (thorough or n == 2) else [(2, 1)]
         for (na, nb) in fl:
             for kind in ("uhf_cpmc", "ghf_cpmc"):
                 jobs.append(("paths", dict(fam="nn", n=n, na=na, nb=nb, trial=kind, seed=seed,
-                                           Us=[4.0] if not thorough else [1.0, 4.0], dts=[0.1] if not thorough else [0.01, 0.1],
+                                           Us=[4.0] if not thorough else [4.0, 1.0], dts=[0.1] if not thorough else [0.1, 0.01],
                                            walkers=["near"] if (n == 3 and not thorough) else ["near", "far"],
                                            probes=(thorough or n == 2))))
     return jobs
@@ -1050,7 +1109,32 @@ def run(ctx):
     jobs = make_jobs(ctx.tier, ctx.seed)
     jobs.append(("example", dict(cells=[("chain2", (1, 1), 4.0), ("chain3", (2, 1), 8.0)] + ([("grid2x2", (2, 2), 1.0)] if ctx.thorough else []))))
     jobs.sort(key=_cost)
-    ctx.pmap(job, jobs)
+    # Workers finish in arbitrary order; collect their violations and enter them simplest-first (smallest lattice,
+    # fewest electrons, on-site before neighbour family) so that the recorded counterexample is the smallest one.
+    collected = []
+    plain_merge = ctx.merge
+
+    def merge_keep_violations(d):
+        d = d.to_dict() if isinstance(d, Result) else dict(d)
+        collected.extend(d["violations"])
+        d["violations"] = []
+        plain_merge(d)
+
+    ctx.merge = merge_keep_violations
+    try:
+        ctx.pmap(job, jobs)
+    finally:
+        ctx.merge = plain_merge
+    fam_rank = {"fast": 0, "tree": 1, "nn": 2}
+
+    def simplicity(v):
+        c = v["case"]
+        return (int(c["n"]), int(c["na"]) + int(c["nb"]), fam_rank.get(c.get("fam"), 3),
+                {"uhf_cpmc": 0, "ghf_cpmc": 1}.get(c.get("trial", c.get("kind")), 2),
+                {"nonuniform": 0, "uniform": 1}.get(c.get("density"), 2), str(c.get("prop")), str(c.get("mode")))
+
+    for v in sorted(collected, key=simplicity):
+        ctx.violation(v["signature"], v["case"], v["detail"])
     ctx.require_guard("leaves", "probes_with_interior_probability", "identity_evaluated[library]", "identity_evaluated[bare]",
                       "identity_evaluated[library,uniform density]", "identity_evaluated[library,nonuniform density]",
                       "pair_constant_cases[same-spin]", "pair_constant_cases[opposite-spin]", "fast_vs_slow_walkers_compared",
@@ -1074,13 +1158,8 @@ def replay(case):
     if case.get("compare") == "fast-vs-slow":
         a = run_population({k: v for k, v in case.items() if k != "compare"})
         b = run_population(dict({k: v for k, v in case.items() if k != "compare"}, prop=case["prop"] + "_slow"))
-        fa, fb = a["info"]["cmp"], b["info"]["cmp"]
-        ok = fa["ok"] & fb["ok"]
-        e = 0.0
-        for nm in ("walkers", "overlaps", "weights"):
-            x, y = fa[nm][ok], fb[nm][ok]
-            d = np.abs(x - y).reshape(x.shape[0], -1).max(axis=1) / np.maximum(np.abs(y).reshape(y.shape[0], -1).max(axis=1), 1e-12)
-            e = max(e, float(np.where(np.isfinite(d), d, np.inf).max()))
+        errs, ok = fast_slow_errors(a["info"]["cmp"], b["info"]["cmp"])
+        e = max(float(err[ok].max()) if ok.any() else 0.0 for err in errs.values())
         return (not e <= TOL, dict(max_relerr_fast_vs_slow=e))
     out = run_population(case)
     sigs = [s for s, _ in out["viol"]]
